@@ -60,12 +60,13 @@ use merlin::instr::Event;
 
 pub const FX_N1: [usize; 6] = [0, 1, 2, 3, 5, 8];
 pub const FX_N2: [usize; 4] = [0, 1, 3, 6];
+pub const FX_BIG: [(usize, usize); 9] = [(17, 0), (33, 0), (70, 0), (12, 9), (20, 40), (64, 64), (0, 17), (1, 31), (100, 5)];
 
 /// The fixture statements. FROZEN: the recorded fixtures refer to these builders by index;
 /// changing this function invalidates /verif/fixtures/proofs_*.json.
 pub fn fx18_program(curve: Curve, idx: usize) -> Program {
-    let n1 = FX_N1[idx % 6];
-    let n2 = FX_N2[(idx / 6) % 4];
+    // indices 0..23: the small grid; 24..: larger shapes (added later, the first 24 are unchanged)
+    let (n1, n2) = if idx < 24 { (FX_N1[idx % 6], FX_N2[(idx / 6) % 4]) } else { FX_BIG[(idx - 24) % FX_BIG.len()] };
     let m = idx % 4;
     let mut ops = vec![];
     for j in 0..m {
@@ -130,7 +131,7 @@ pub fn fx18_program(curve: Curve, idx: usize) -> Program {
     Program { curve, tlabel: (idx % 3) as u8, pre: if idx % 4 == 2 { vec![(0, vec![7, 7])] } else { vec![] }, ops, owned: false, cap_p: Cap::Exact, cap_v: Cap::Exact, party_cap: 1, seed: 1800 + idx as u64, pc: 0 }
 }
 
-pub const FX_COUNT: usize = 24;
+pub const FX_COUNT: usize = 33;
 
 /// the three recorded wrong statements (index 0..3); None if not applicable to this fixture
 pub fn fx18_wrong(prog: &Program, commitments: &[Vec<u8>], which: usize, bump: &dyn Fn(&[u8]) -> Vec<u8>) -> Option<(Program, Vec<Vec<u8>>, &'static str)> {
